@@ -7,9 +7,8 @@ All theorems are about `Ckks.stepR` / `Ckks.run` and the per-operation functions
 step with the real `poulpy_ckks` API.  A program is a list of API calls on a pool of ciphertexts;
 `run` stops at the first call that does not return `Ok` (the caller propagates errors).
 
-Where the pinned code violates the statement the full statement is kept in a comment, the proved
-theorem is `…_partial` under the excluding hypothesis (`Ckks.Safe` / `Ckks.RescaleFits`), and the
-negation is proved on the witness that `./check C16` replays on the implementation.
+The model follows the tree with the repairs docs/fixes/01–07 applied.  What remains partial is stated
+where it occurs (`never_panics_partial`: operands of a multiplication must hold a value).
 -/
 
 namespace C16
@@ -20,16 +19,11 @@ def env52 : Env := ⟨52, [1, 2], 53⟩
 
 /-! ## 1. invariant `log_delta + log_budget ≤ max_k` -/
 
-/- FULL STATEMENT (not proved — false of the pinned code):
-   ∀ env pool pool' op, WF env → Inv env pool → stepR env pool op = .ok pool' → Inv env pool'
-   `ckks_rescale_into` copies `src`'s metadata minus `k` into `dst` without consulting `dst.max_k()`
-   (every other `_into` operation applies `offset_unary`). -/
-
-/-- every `Ok` call keeps `log_delta + log_budget ≤ max_k` on all ciphertexts, provided
-`ckks_rescale_into` is only used with a destination that can hold the result -/
-theorem invariant_step_partial (env : Env) (hw : WF env) (pool pool' : Pool) (op : Op)
-    (hI : Inv env pool) (hr : RescaleFits env pool op) (h : stepR env pool op = .ok pool') : Inv env pool' :=
-  stepR_ok_inv env hw pool pool' op hI hr h
+/-- every `Ok` call keeps `log_delta + log_budget ≤ max_k` on all ciphertexts of the pool
+(unconditional since `ckks_rescale_into` pays the destination offset, docs/fixes/04) -/
+theorem invariant_step (env : Env) (hw : WF env) (pool pool' : Pool) (op : Op)
+    (hI : Inv env pool) (h : stepR env pool op = .ok pool') : Inv env pool' :=
+  stepR_ok_inv env hw pool pool' op hI h
 
 example : Inv env52 [⟨⟨30, 130⟩, 4⟩, ⟨⟨0, 0⟩, 4⟩] ∧
     stepR env52 [⟨⟨30, 130⟩, 4⟩, ⟨⟨0, 0⟩, 4⟩] (.mul 1 0 0) = .ok [⟨⟨30, 130⟩, 4⟩, ⟨⟨30, 100⟩, 4⟩] := by
@@ -37,26 +31,19 @@ example : Inv env52 [⟨⟨30, 130⟩, 4⟩, ⟨⟨0, 0⟩, 4⟩] ∧
   · intro c hc; simp at hc; rcases hc with rfl | rfl <;> simp [Ct.inv, Meta.effK, env52]
   · decide
 
-/-- the witness replayed by `corpus/C16/04-rescale-into-smaller.case`: `Ok` with 150 bits of metadata
-on a 104-bit ciphertext -/
-theorem invariant_step_counterexample :
-    ¬ (∀ env pool pool' op, WF env → Inv env pool → stepR env pool op = .ok pool' → Inv env pool') := by
-  intro h
-  have hI : Inv env52 [⟨⟨30, 130⟩, 4⟩, ⟨⟨0, 0⟩, 2⟩] := by
-    intro c hc; simp at hc; rcases hc with rfl | rfl <;> simp [Ct.inv, Meta.effK, env52]
-  have := h env52 [⟨⟨30, 130⟩, 4⟩, ⟨⟨0, 0⟩, 2⟩] [⟨⟨30, 130⟩, 4⟩, ⟨⟨30, 120⟩, 2⟩] (.rescale 1 10 0)
-    (by decide) hI (by decide)
-  have h2 := this ⟨⟨30, 120⟩, 2⟩ (by simp)
-  simp [Ct.inv, Meta.effK, env52] at h2
+/-- the former counterexample (`corpus/C16/04-rescale-into-smaller.case`): the rescale into 2 limbs
+now pays 46 more bits instead of announcing 150 bits on a 104-bit ciphertext -/
+example : stepR env52 [⟨⟨30, 130⟩, 4⟩, ⟨⟨0, 0⟩, 2⟩] (.rescale 1 10 0) =
+    .ok [⟨⟨30, 130⟩, 4⟩, ⟨⟨30, 74⟩, 2⟩] := by decide
 
 /-- the invariant along whole programs (induction on the op list) -/
-theorem invariant_run_partial (env : Env) (hw : WF env) (prog : List Op) (s s' : Pool)
-    (hI : Inv env s) (hA : Along RescaleFits env s prog) (h : run env s prog = .ok s') : Inv env s' :=
-  run_ok_inv env hw prog s s' hI hA h
+theorem invariant_run (env : Env) (hw : WF env) (prog : List Op) (s s' : Pool)
+    (hI : Inv env s) (h : run env s prog = .ok s') : Inv env s' :=
+  run_ok_inv env hw prog s s' hI h
 
 example : run env52 [⟨⟨0, 0⟩, 4⟩, ⟨⟨0, 0⟩, 4⟩]
-    [.enc 0 160 ⟨⟨30, 100⟩, 52⟩, .rescaleAssign 0 55, .compact 0, .square 1 0] =
-    .ok [⟨⟨30, 75⟩, 3⟩, ⟨⟨30, 45⟩, 4⟩] := by decide
+    [.enc 0 160 ⟨⟨30, 100⟩, 52⟩, .rescaleAssign 0 55, .square 1 0] =
+    .ok [⟨⟨30, 75⟩, 4⟩, ⟨⟨30, 45⟩, 4⟩] := by decide
 
 /-! ## 2. `Err` exactly when the documented condition holds — one theorem per operation family -/
 
@@ -107,14 +94,17 @@ theorem pt_align_err_iff (env : Env) (dst : Ct) (pt : Pt) :
 
 example : ptAlign env52 ⟨⟨30, 100⟩, 4⟩ ⟨⟨30, 10⟩, 19⟩ = .err (.base2kMismatch 52 19) ⟨⟨30, 100⟩, 4⟩ := by decide
 
-/-- rescale, both forms -/
+/-- rescale, both forms; out of place additionally the bits that do not fit the destination -/
 theorem rescale_err_iff (env : Env) (dst src : Ct) (k : Nat) :
-    ((rescaleInto env dst k src).isErr = true ↔ src.md.logBudget < k) ∧
+    ((rescaleInto env dst k src).isErr = true ↔
+      (src.md.logBudget < k ∨
+       src.md.logBudget - k < (src.md.logDelta + (src.md.logBudget - k)) - dst.maxK env)) ∧
     ((rescaleAssign env src k).isErr = true ↔ src.md.logBudget < k) := by
   simp only [rescaleInto, rescaleAssign]
   grind [Res.isErr]
 
-example : rescaleAssign env52 ⟨⟨30, 40⟩, 4⟩ 41 = .err (.insufficient 40 41) ⟨⟨30, 40⟩, 4⟩ := by decide
+example : rescaleAssign env52 ⟨⟨30, 40⟩, 4⟩ 41 = .err (.insufficient 40 41) ⟨⟨30, 40⟩, 4⟩ ∧
+    rescaleInto env52 ⟨⟨0, 0⟩, 1⟩ 10 ⟨⟨60, 12⟩, 4⟩ = .err (.insufficient 2 10) ⟨⟨0, 0⟩, 1⟩ := by decide
 
 /-- division by a power of two, both forms -/
 theorem div_pow2_err_iff (env : Env) (dst a : Ct) (bits : Nat) :
@@ -140,27 +130,29 @@ theorem mul_err_iff (env : Env) (dst a b : Ct) :
 example : mulInto env52 ⟨⟨0, 0⟩, 4⟩ ⟨⟨30, 20⟩, 1⟩ ⟨⟨30, 20⟩, 1⟩ =
     .err (.mulUnderflow 20 20 30 30) ⟨⟨0, 0⟩, 4⟩ := by decide
 
-/-- ciphertext × plaintext / constant -/
+/-- ciphertext × plaintext vector: radix mismatch (docs/fixes/02), precision underflow, capacity -/
 theorem mul_pt_err_iff (env : Env) (dst a : Ct) (pt : Pt) :
     (mulPtZnxInto env dst a pt).isErr = true ↔
-      (a.md.logBudget < pt.md.logDelta ∨
+      (env.base2k ≠ pt.base2k ∨ a.md.logBudget < pt.md.logDelta ∨
        a.md.logBudget - pt.md.logDelta < (a.md.logBudget - pt.md.logDelta + a.md.logDelta) - dst.maxK env) := by
   simp only [mulPtZnxInto, mulPtParams, finishMul]
   grind [Res.isErr]
 
-example : (mulPtZnxInto env52 ⟨⟨0, 0⟩, 4⟩ ⟨⟨30, 20⟩, 1⟩ ⟨⟨30, 4⟩, 52⟩).isErr = true := by decide
+example : (mulPtZnxInto env52 ⟨⟨0, 0⟩, 4⟩ ⟨⟨30, 20⟩, 1⟩ ⟨⟨30, 4⟩, 52⟩).isErr = true ∧
+    mulPtZnxInto env52 ⟨⟨0, 0⟩, 4⟩ ⟨⟨30, 178⟩, 4⟩ ⟨⟨30, 10⟩, 19⟩ =
+      .err (.base2kMismatch 52 19) ⟨⟨0, 0⟩, 4⟩ := by decide
 
-/-- encryption with noise position `k` inside the buffer: budget short iff `k < pt.log_delta`, else
-the plaintext must have the ciphertext's radix and fit under `k` -/
-theorem encrypt_err_iff (env : Env) (ct : Ct) (k : Nat) (pt : Pt) (hk : 0 < k)
-    (hfit : divCeil k env.base2k ≤ ct.size) :
+/-- encryption (docs/fixes/06): `k = 0`, budget short (`k < pt.log_delta`), noise position outside
+the buffer (`max_k < k`), or the plaintext does not have the radix / does not fit under `k` -/
+theorem encrypt_err_iff (env : Env) (ct : Ct) (k : Nat) (pt : Pt) :
     (encrypt env ct k pt).isErr = true ↔
-      (k < pt.md.logDelta ∨ env.base2k ≠ pt.base2k ∨ k < pt.maxK) := by
-  simp only [encrypt, ptAlign, usub]
+      (k = 0 ∨ k < pt.md.logDelta ∨ ct.maxK env < k ∨ env.base2k ≠ pt.base2k ∨ k < pt.maxK) := by
+  simp only [encrypt, setMeta, Res.bind, ptAlign, usub, Meta.effK]
   grind [Res.isErr]
 
 example : encrypt env52 ⟨⟨0, 0⟩, 4⟩ 160 ⟨⟨30, 100⟩, 52⟩ = .ok ⟨⟨30, 130⟩, 4⟩ ∧
-    encrypt env52 ⟨⟨0, 0⟩, 4⟩ 100 ⟨⟨30, 100⟩, 52⟩ = .err (.alignment 70 30 156) ⟨⟨30, 70⟩, 4⟩ := by decide
+    encrypt env52 ⟨⟨0, 0⟩, 4⟩ 100 ⟨⟨30, 100⟩, 52⟩ = .err (.alignment 70 30 156) ⟨⟨30, 70⟩, 4⟩ ∧
+    encrypt env52 ⟨⟨0, 0⟩, 4⟩ 209 ⟨⟨30, 10⟩, 52⟩ = .err (.realloc 208 30 52 4) ⟨⟨0, 0⟩, 4⟩ := by decide
 
 /-- limb reallocation / compaction / manual metadata -/
 theorem maintain_err_iff (env : Env) (ct : Ct) (size : Nat) (m : Meta) :
@@ -207,14 +199,17 @@ theorem mul_pt_meta (env : Env) (dst a d' : Ct) (pt : Pt) (h : mulPtZnxInto env 
 
 example : mulPtZnxInto env52 ⟨⟨0, 0⟩, 4⟩ ⟨⟨30, 126⟩, 3⟩ ⟨⟨20, 4⟩, 52⟩ = .ok ⟨⟨30, 106⟩, 4⟩ := by decide
 
-/-- rescale (both forms): only `log_budget` moves, by exactly `k` -/
+/-- rescale: only `log_budget` moves — by `k` in place, by `k` plus the destination offset out of place -/
 theorem rescale_meta (env : Env) (dst src d' : Ct) (k : Nat) :
-    (rescaleInto env dst k src = .ok d' → d'.md = ⟨src.md.logDelta, src.md.logBudget - k⟩ ∧ d'.size = dst.size) ∧
+    (rescaleInto env dst k src = .ok d' →
+      d'.md = ⟨src.md.logDelta,
+        src.md.logBudget - k - ((src.md.logDelta + (src.md.logBudget - k)) - dst.maxK env)⟩ ∧ d'.size = dst.size) ∧
     (rescaleAssign env src k = .ok d' → d'.md = ⟨src.md.logDelta, src.md.logBudget - k⟩ ∧ d'.size = src.size) := by
   simp only [rescaleInto, rescaleAssign]
   grind
 
-example : rescaleAssign env52 ⟨⟨30, 130⟩, 4⟩ 55 = .ok ⟨⟨30, 75⟩, 4⟩ := by decide
+example : rescaleAssign env52 ⟨⟨30, 130⟩, 4⟩ 55 = .ok ⟨⟨30, 75⟩, 4⟩ ∧
+    rescaleInto env52 ⟨⟨0, 0⟩, 2⟩ 10 ⟨⟨30, 130⟩, 4⟩ = .ok ⟨⟨30, 74⟩, 2⟩ := by decide
 
 /-- multiplication by a power of two, both forms: the metadata do not depend on `bits`
 (the out-of-place form only pays the alignment offset) -/
@@ -274,14 +269,12 @@ example : compact env52 ⟨⟨30, 75⟩, 4⟩ = .ok ⟨⟨30, 75⟩, 3⟩ := by 
 /-! ## 4. no wrapped metadata: every unchecked `usize` subtraction is guarded -/
 
 /-- the CKKS-level unchecked subtractions (`b.log_budget() - a.log_budget() + offset`,
-`available - pt_max_k`, `dst_k - available`, `ckks_align_assign`) can never underflow, whatever the
-state; the core-level size subtraction `a.size() + b.size() - cnv_offset_hi` cannot underflow on
-operands that fit their storage -/
+`available - pt_max_k`, `dst_k - available`, `ckks_align_assign`) and the core-level
+`a_size + b_size - cnv_offset_hi` of the tensor product can never underflow, in any state -/
 theorem no_usize_underflow (env : Env) (hw : WF env) (dst a b : Ct) (pt : Pt) (pool : Pool) (i j : Nat) :
     addCtInto env dst a b ≠ .panic .usizeSub ∧ addCtAssign env dst a ≠ .panic .usizeSub ∧
     ptAlign env dst pt ≠ .panic .usizeSub ∧ decrypt env dst pt ≠ .panic .usizeSub ∧
-    alignStep env pool i j ≠ .panic .usizeSub ∧
-    (a.inv env → b.inv env → mulInto env dst a b ≠ .panic .usizeSub) := by
+    alignStep env pool i j ≠ .panic .usizeSub ∧ mulInto env dst a b ≠ .panic .usizeSub := by
   have h1 := addCtInto_no_panic env dst a b
   have h2 := addCtAssign_no_panic env dst a
   have h3 := ptAlign_no_panic env dst pt
@@ -293,15 +286,17 @@ theorem no_usize_underflow (env : Env) (hw : WF env) (dst a b : Ct) (pt : Pt) (p
   · intro h; rw [h] at h3; simp [Res.isPanic] at h3
   · intro h; rw [h] at h4; simp [Res.isPanic] at h4
   · intro h; rw [h] at h5; simp [Res.isPanic] at h5
-  · intro ia ib h
+  · intro h
     simp only [mulInto] at h
     split at h
     · cases h
     · next q hq =>
       have hc := mulCtParams_cnv _ _ _ _ _ hq
-      simp only [Ct.inv] at ia ib
-      have hhi : cnvHi env.base2k q.cnv ≤ a.size + b.size := by
+      have la := le_divCeil_mul a.md.effK env.base2k hw
+      have lb := le_divCeil_mul b.md.effK env.base2k hw
+      have hhi : cnvHi env.base2k q.cnv ≤ effLimbs env a + effLimbs env b := by
         apply cnvHi_le _ _ _ hw
+        simp only [effLimbs]
         rw [Nat.add_mul]; omega
       simp only [finishMul, tensorCheck] at h
       grind
@@ -310,77 +305,53 @@ example : addShifts ⟨30, 90⟩ ⟨30, 8⟩ 3 = some (3, 85) := by decide
 
 /-! ## 5. never panics -/
 
-/- FULL STATEMENT (not proved — false of the pinned code):
-   ∀ env pool prog, WF env → Inv env pool → (run env pool prog).isPanic = false
-   Reproduced panics (docs/C16.md): (1) the tensor / mul-plain entry points of poulpy-core assert
-   `size = ⌈effective_k/base2k⌉`, which no CKKS operation except `ckks_compact_limbs` re-establishes;
-   (2) `ckks_mul_pt_vec_znx_*` with a plaintext of another radix asserts instead of returning
-   `PlaintextBase2KMismatch`; (3) a constant whose aligned form has more limbs than the destination;
-   (4) zero-precision plaintexts; (5) an encryption position outside the buffer. -/
+/- FULL STATEMENT (not proved): ∀ env pool prog, WF env → Inv env pool → (run env pool prog).isPanic = false.
+   With the repairs 01–07 the only remaining panic is a multiplication whose ciphertext operand was
+   never given a value (`effective_k = 0`, a merely allocated buffer): it narrows to zero limbs, which the
+   FFT64 convolution rejects (`size - 1` / `assert!(a_size > 0)`) while NTT120 accepts it.  The model takes
+   the conservative reading; kept as finding `ckks_mul*:operand-with-effective_k=0` (back-end design decision). -/
 
-/-- one call: no panic from a state that fits its storage when the call is `Safe` -/
+/-- one call: no panic from a state that fits its storage when multiplication operands hold a value -/
 theorem never_panics_step_partial (env : Env) (hw : WF env) (pool : Pool) (op : Op)
-    (hI : Inv env pool) (hs : Safe env pool op) : (stepR env pool op).isPanic = false :=
+    (hI : Inv env pool) (hs : Initialised env pool op) : (stepR env pool op).isPanic = false :=
   stepR_no_panic env hw pool op hI hs
 
-/-- whole programs: if every call is `Safe` in the state it is issued in, the run never panics -/
+/-- whole programs: the run never panics if every multiplication is issued on operands that hold a
+value — no compaction, radix, precision or destination-size side condition any more -/
 theorem never_panics_partial (env : Env) (hw : WF env) (prog : List Op) (s : Pool)
-    (hI : Inv env s) (hA : Along Safe env s prog) : (run env s prog).isPanic = false :=
+    (hI : Inv env s) (hA : Along Initialised env s prog) : (run env s prog).isPanic = false :=
   run_no_panic env hw prog s hI hA
 
-example : Safe env52 [⟨⟨30, 75⟩, 3⟩, ⟨⟨0, 0⟩, 4⟩] (.square 1 0) ∧
-    (stepR env52 [⟨⟨30, 75⟩, 3⟩, ⟨⟨0, 0⟩, 4⟩] (.square 1 0)).isOk = true := by
-  constructor
-  · intro c hc; simp at hc; subst hc; decide
-  · decide
+/-- DESIGN §7 finding 8 is repaired: rescale by `base2k + 3` bits, then square without compaction -/
+example : Initialised env52 [⟨⟨30, 75⟩, 4⟩, ⟨⟨0, 0⟩, 4⟩] (.square 1 0) ∧
+    ¬ (⟨⟨30, 75⟩, 4⟩ : Ct).compact env52 ∧
+    stepR env52 [⟨⟨30, 75⟩, 4⟩, ⟨⟨0, 0⟩, 4⟩] (.square 1 0) = .ok [⟨⟨30, 75⟩, 4⟩, ⟨⟨30, 45⟩, 4⟩] := by
+  refine ⟨?_, by decide, by decide⟩
+  intro c hc; simp at hc; subst hc; decide
 
-/-- DESIGN §7 finding 8, the minimal program: encrypt at effective_k = 160 into 4 limbs,
-`ckks_rescale_assign(base2k + 3)`, `ckks_square_into` → panic (glwe.rs:632, 3 vs 4) -/
+/-- the remaining witness: squaring a buffer that was only allocated -/
 theorem never_panics_counterexample :
     ¬ (∀ env pool prog, WF env → Inv env pool → (run env pool prog).isPanic = false) := by
   intro h
-  have hI : Inv env52 [⟨⟨0, 0⟩, 4⟩, ⟨⟨0, 0⟩, 4⟩] := by
+  have hI : Inv ⟨17, [], 53⟩ [⟨⟨0, 0⟩, 4⟩] := by
     intro c hc; simp at hc; subst hc; simp [Ct.inv, Meta.effK]
-  have := h env52 [⟨⟨0, 0⟩, 4⟩, ⟨⟨0, 0⟩, 4⟩]
-    [.enc 0 160 ⟨⟨30, 100⟩, 52⟩, .rescaleAssign 0 55, .square 1 0] (by decide) hI
+  have := h ⟨17, [], 53⟩ [⟨⟨0, 0⟩, 4⟩] [.squareAssign 0] (by decide) hI
   revert this
   decide
 
-/-- which multiplications reach the assertion: exactly those whose parameters are accepted and
-whose operands (both fitting their storage) are not both compact -/
+/-- which multiplications can still panic: exactly those whose parameters are accepted and one of
+whose operands (both fitting their storage) has `effective_k = 0` -/
 theorem mul_panics_iff (env : Env) (hw : WF env) (dst a b : Ct) (ia : a.inv env) (ib : b.inv env) :
     (mulInto env dst a b).isPanic = true ↔
-      ((∃ q, mulCtParams env dst a b = .ok q) ∧ (¬ a.compact env ∨ ¬ b.compact env)) :=
+      ((∃ q, mulCtParams env dst a b = .ok q) ∧ (a.md.effK = 0 ∨ b.md.effK = 0)) :=
   mulInto_panic_iff env hw dst a b ia ib
 
-example : (mulInto env52 ⟨⟨0, 0⟩, 4⟩ ⟨⟨30, 75⟩, 4⟩ ⟨⟨30, 75⟩, 4⟩).isPanic = true ∧
-    (mulInto env52 ⟨⟨0, 0⟩, 4⟩ ⟨⟨30, 75⟩, 3⟩ ⟨⟨30, 75⟩, 3⟩).isOk = true := by decide
+example : (mulInto env52 ⟨⟨0, 0⟩, 4⟩ ⟨⟨30, 75⟩, 4⟩ ⟨⟨30, 75⟩, 4⟩).isOk = true ∧
+    (mulInto env52 ⟨⟨0, 0⟩, 4⟩ ⟨⟨0, 0⟩, 4⟩ ⟨⟨0, 0⟩, 4⟩).isPanic = true := by decide
 
-/-- a rescale (or in-place division by a power of two) of a compact ciphertext leaves it compact
-exactly when no limb boundary is crossed — so *every* multiplication after a rescale by at least
-`base2k` bits, and most after smaller ones, needs `ckks_compact_limbs` first -/
-theorem rescale_keeps_compact_iff (env : Env) (ct d' : Ct) (k : Nat) (hc : ct.compact env)
-    (h : rescaleAssign env ct k = .ok d') :
-    d'.compact env ↔ divCeil (ct.md.effK - k) env.base2k = divCeil ct.md.effK env.base2k := by
-  simp only [rescaleAssign] at h
-  split at h
-  · injection h with h; subst h
-    simp only [Ct.compact, Meta.effK] at *
-    have : ct.md.logDelta + (ct.md.logBudget - k) = ct.md.logDelta + ct.md.logBudget - k := by omega
-    rw [this, hc]
-  · cases h
-
-example : (⟨⟨30, 130⟩, 4⟩ : Ct).compact env52 ∧ rescaleAssign env52 ⟨⟨30, 130⟩, 4⟩ 55 = .ok ⟨⟨30, 75⟩, 4⟩ ∧
-    ¬ (⟨⟨30, 75⟩, 4⟩ : Ct).compact env52 := by decide
-
-/-- the constant injection of `ckks_{add,sub}_pt_const_*` panics exactly when the aligned constant
-has more limbs than the destination -/
-theorem add_const_panics_iff (env : Env) (dst : Ct) (cst : Cst) :
-    (cstAssign env dst cst).isPanic = true ↔
-      ((cst.re || cst.im) = true ∧ cst.md.effK ≤ dst.md.logBudget + cst.md.logDelta ∧ dst.size < cst.limbs) :=
-  cstAssign_panic_iff env dst cst
-
-example : (addCstRnxAssign ⟨17, [], 53⟩ ⟨⟨30, 106⟩, 8⟩ ⟨50, 0⟩ true true).isPanic = true := by decide
+/-- constants more precise than the ciphertext are accepted (docs/fixes/03): the aligned constant of the
+former witness has 10 limbs, the ciphertext 8 -/
+example : addCstRnxAssign ⟨17, [], 53⟩ ⟨⟨30, 106⟩, 8⟩ ⟨50, 0⟩ true true = .ok ⟨⟨30, 106⟩, 8⟩ := by decide
 
 /-! ## 6. observations recorded as theorems -/
 
@@ -394,26 +365,16 @@ theorem err_leaves_source_meta (env : Env) (dst a : Ct) (extra : Nat) (e : Err) 
 
 example : shiftInto env52 ⟨⟨0, 0⟩, 1⟩ ⟨⟨60, 10⟩, 4⟩ 0 = .err (.insufficient 10 18) ⟨⟨60, 10⟩, 1⟩ := by decide
 
-/-- value-level bit algebra of ct × ct: the convolution offset chosen by `get_mul_ct_params` plus the
-announced result budget equals the sum of the operand budgets (the condition under which
-`decode = product of the decodes`) iff the operand with the larger `log_delta` does not have the
-smaller `log_budget` -/
-theorem mul_scale_consistent_iff (env : Env) (dst a b : Ct) (q : MulP) (h : mulCtParams env dst a b = .ok q) :
-    q.cnv + q.budget = a.md.logBudget + b.md.logBudget ↔
-      max a.md.effK b.md.effK = max a.md.logBudget b.md.logBudget + max a.md.logDelta b.md.logDelta := by
-  simp only [mulCtParams, Meta.effK] at h
-  grind [Meta.effK]
+/-- value-level bit algebra of ct × ct (docs/fixes/01): the convolution offset chosen by
+`get_mul_ct_params` plus the announced result budget equals the sum of the operand budgets — the
+condition under which `decode(product) = decode(a) · decode(b)` — for **every** accepted multiplication -/
+theorem mul_scale_consistent (env : Env) (dst a b : Ct) (q : MulP) (h : mulCtParams env dst a b = .ok q) :
+    q.cnv + q.budget = a.md.logBudget + b.md.logBudget := by
+  simp only [mulCtParams] at h
+  grind
 
-/- FULL STATEMENT (not proved — false of the pinned code): for every accepted multiplication
-   `q.cnv + q.budget = a.log_budget + b.log_budget`. -/
-theorem mul_scale_counterexample :
-    ¬ (∀ env dst a b q, mulCtParams env dst a b = .ok q → q.cnv + q.budget = a.md.logBudget + b.md.logBudget) := by
-  intro h
-  have := h env52 ⟨⟨0, 0⟩, 5⟩ ⟨⟨32, 124⟩, 3⟩ ⟨⟨40, 116⟩, 3⟩ ⟨76, 32, 156⟩ (by rfl)
-  revert this
-  decide
-
-example : mulCtParams env52 ⟨⟨0, 0⟩, 5⟩ ⟨⟨32, 124⟩, 3⟩ ⟨⟨32, 124⟩, 3⟩ = .ok ⟨92, 32, 156⟩ ∧
-    156 + 92 = 124 + 124 := ⟨by rfl, by decide⟩
+/-- the former counterexample (log_delta 32 / log_budget 124 against 40 / 116) -/
+example : mulCtParams env52 ⟨⟨0, 0⟩, 5⟩ ⟨⟨32, 124⟩, 3⟩ ⟨⟨40, 116⟩, 3⟩ = .ok ⟨76, 32, 164⟩ ∧
+    164 + 76 = 124 + 116 := ⟨by rfl, by decide⟩
 
 end C16
